@@ -192,6 +192,13 @@ def real_floormod(a, b):
     return a - b * ToReal(floorq(a, b))
 
 
+def asel(arr, i):
+    """arr[i]; a lambda-defined array is applied at once (beta reduction), so that the term contains no binder"""
+    if z3.is_quantifier(arr) and arr.is_lambda() and arr.num_vars() == 1:
+        return z3.substitute_vars(arr.body(), i if is_expr(i) else IntVal(i))
+    return arr[i]
+
+
 def has_quant(f):
     """does the term contain a quantifier or lambda?  (terms are DAGs: every node is visited once)"""
     todo, seen = [f], set()
